@@ -176,7 +176,7 @@ PROPS = {
         "lean_modules": ["Astral.Props.C02", "Astral.Props.C02Clamp", "Astral.Props.C02Horiz"],
         "theorems": [
             "Astral.C02Horiz.core", "Astral.C02Horiz.sun_horizontal", "Astral.C02Horiz.sunDeclination_range",
-            "Astral.C02Horiz.sun_api_horizontal",
+            "Astral.C02Horiz.sun_api_horizontal", "Astral.C02Horiz.sun_side_of_meridian",
             "Astral.C02Clamp.zenith_lipschitz_in_latitude", "Astral.C02Clamp.clamp_cost",
             "Astral.C02Clamp.clamp_cost_model",
             "Astral.C02.zenithOfCos_range", "Astral.C02.azimuthRaw_range", "Astral.C02.normAzimuth_range",
@@ -369,7 +369,7 @@ PROPS = {
         "lean_modules": ["Astral.Props.C12", "Astral.Props.C12Horiz"],
         "theorems": [
             "Astral.C12Horiz.unit", "Astral.C12Horiz.moonXYZ_components", "Astral.C12Horiz.moon_horizontal",
-            "Astral.C12Horiz.moon_altitude_formula",
+            "Astral.C12Horiz.moon_altitude_formula", "Astral.C12Horiz.moon_side_of_meridian",
             "Astral.C12.moon_elevation_range", "Astral.C12.moon_zenith_def",
             "Astral.C12.moon_azimuth_range", "Astral.C12.wrap_identity", "Astral.C12.moon_zenith_range",
         ],
